@@ -338,6 +338,166 @@ Proof.
   split; [vm_compute; reflexivity|]. split; [vm_compute; reflexivity|]. split; vm_compute; reflexivity.
 Qed.
 
+(* ------------------------------------------------------------------ rendered variants keep the escapes of brackets and braces *)
+Definition plainb (c : N) : bool :=
+  negb ((c =? cBSL) || (c =? cLBR) || (c =? cRBR) || (c =? cOPEN) || (c =? cCLOSE)).
+
+(* literal text as parsePatternVariant accumulates it (most recent byte first): plain bytes and escape pairs *)
+Inductive okrev : bytes -> Prop :=
+| okrev_nil : okrev []
+| okrev_plain : forall c r, plainb c = true -> okrev r -> okrev (c :: r)
+| okrev_pair : forall c2 r, okrev r -> okrev (c2 :: cBSL :: r).
+
+Lemma scan_ok_app : forall a e b, scan_ok e a = true -> scan_ok e (a ++ b) = scan_ok false b.
+Proof.
+  induction a as [|c r IH]; intros e b H; cbn [app scan_ok] in *.
+  - destruct e; [discriminate | reflexivity].
+  - destruct e; [apply IH; exact H|].
+    destruct (c =? cBSL); [apply IH; exact H|].
+    destruct ((c =? cLBR) || (c =? cRBR) || (c =? cOPEN) || (c =? cCLOSE)); [discriminate | apply IH; exact H].
+Qed.
+
+Lemma okrev_scan_ok : forall r, okrev r -> scan_ok false (rev r) = true.
+Proof.
+  induction 1 as [|c r Hp _ IH|c2 r _ IH]; [reflexivity | |].
+  - cbn [rev]. rewrite (scan_ok_app _ _ _ IH). cbn [scan_ok]. unfold plainb in Hp.
+    apply negb_true_iff in Hp. repeat (apply orb_false_iff in Hp; destruct Hp as [Hp ?]).
+    rewrite Hp. replace ((c =? cLBR) || (c =? cRBR) || (c =? cOPEN) || (c =? cCLOSE)) with false; [reflexivity|].
+    symmetry. repeat (apply orb_false_iff; split); assumption.
+  - cbn [rev]. rewrite <- app_assoc. rewrite (scan_ok_app _ _ _ IH). reflexivity.
+Qed.
+
+Definition comp_ok (c : comp) : Prop := scan_ok false (comp_string c) = true.
+
+Lemma comp_ok_nonlit : forall t x, (t =? tLIT) = false -> comp_ok (t, x).
+Proof.
+  intros t x H. unfold comp_ok, comp_string. cbn [fst snd].
+  destruct (t =? tGLOB); [reflexivity|]. destruct ((t =? tSDT) || (t =? tSD)); [reflexivity|].
+  destruct (t =? tSDST); [reflexivity|]. destruct (t =? tSEP); [reflexivity|]. destruct (t =? tANY); [reflexivity|].
+  rewrite H. reflexivity.
+Qed.
+
+Lemma comp_ok_lit : forall x, scan_ok false x = true -> comp_ok (tLIT, x).
+Proof. intros x H. unfold comp_ok, comp_string. cbn. exact H. Qed.
+
+(* a stack entry kept from the stack with its type tested to be a non-literal constant *)
+Lemma comp_ok_retype : forall t x k, (t =? k) = true -> (k =? tLIT) = false -> comp_ok (t, x).
+Proof. intros t x k H1 H2. apply N.eqb_eq in H1. subst. apply comp_ok_nonlit. exact H2. Qed.
+
+Ltac inv_forall := repeat match goal with H : Forall comp_ok (_ :: _) |- _ => inversion H; subst; clear H end.
+Ltac solve_ok := repeat first [ assumption | apply Forall_nil | apply Forall_cons | (apply comp_ok_nonlit; reflexivity) ].
+
+Lemma reduce_ok : forall st, Forall comp_ok st -> Forall comp_ok (reduce_prev_doublestar st).
+Proof.
+  intros st H. unfold reduce_prev_doublestar. destruct st as [|[u x] r]; [exact H|].
+  destruct (u =? tSD); [inv_forall; unfold mk; solve_ok | exact H].
+Qed.
+
+Lemma consume_ok : forall runes st, okrev runes -> Forall comp_ok st -> Forall comp_ok (consume_text runes st).
+Proof.
+  intros runes st Hr Hs. unfold consume_text. destruct runes as [|c r]; [exact Hs|].
+  apply Forall_cons; [apply comp_ok_lit; apply okrev_scan_ok; exact Hr | apply reduce_ok; exact Hs].
+Qed.
+
+Lemma add_globstar_ok : forall st, Forall comp_ok st -> Forall comp_ok (add_globstar st).
+Proof.
+  intros st H. unfold add_globstar. destruct (top_is st tGLOB || top_is st tSD); [exact H|]. unfold mk. solve_ok.
+Qed.
+
+Lemma components_go_ok : forall n s runes st res, (length s <= n)%nat ->
+  okrev runes -> Forall comp_ok st -> components_go s runes st = Some res -> Forall comp_ok res.
+Proof.
+  induction n as [|n IH]; intros s runes st res Hl Hr Hs H.
+  - destruct s; [|cbn in Hl; lia]. cbn in H. inversion H; subst. apply consume_ok; assumption.
+  - destruct s as [|c r]; [cbn in H; inversion H; subst; apply consume_ok; assumption|].
+    cbn [length] in Hl. cbn [components_go] in H.
+    destruct (c =? cSLASH).
+    { eapply IH; [| apply okrev_nil | | exact H]; [lia|].
+      pose proof (consume_ok _ _ Hr Hs) as H1. set (st1 := consume_text runes st) in *.
+      assert (H2 : Forall comp_ok
+                (match st1 with
+                 | (a, _) :: (b, _) :: (d, _) :: rest =>
+                     if (a =? tGLOB) && (b =? tSEP) && (d =? tSD) then mk tSD :: mk tGLOB :: mk tSEP :: rest else st1
+                 | _ => st1
+                 end)).
+      { destruct st1 as [|[a xa] [|[b xb] [|[d xd] rest]]]; try exact H1.
+        destruct ((a =? tGLOB) && (b =? tSEP) && (d =? tSD)); [inv_forall; unfold mk; solve_ok | exact H1]. }
+      match goal with |- Forall comp_ok (if top_is ?x tSEP then _ else _) => destruct (top_is x tSEP) end;
+        [exact H2 | unfold mk; solve_ok]. }
+    destruct (c =? cQM).
+    { eapply IH; [| apply okrev_nil | | exact H]; [lia|].
+      pose proof (consume_ok _ _ Hr (reduce_ok _ Hs)) as H1. set (st1 := consume_text runes (reduce_prev_doublestar st)) in *.
+      destruct st1 as [|[a xa] rest]; [unfold mk; solve_ok|].
+      destruct (a =? tGLOB); inv_forall; unfold mk; solve_ok. }
+    destruct (c =? cDSTAR).
+    { eapply IH; [| apply okrev_nil | | exact H]; [lia|].
+      pose proof (consume_ok _ _ Hr Hs) as H1. set (st1 := consume_text runes st) in *.
+      destruct st1 as [|[a xa] [|[b xb] rest]].
+      - apply add_globstar_ok. exact H1.
+      - destruct (a =? tSEP); [inv_forall; unfold mk; solve_ok | apply add_globstar_ok; exact H1].
+      - destruct ((a =? tSEP) && (b =? tSD)); [inv_forall; solve_ok|].
+        destruct (a =? tSEP); [inv_forall; unfold mk; solve_ok | apply add_globstar_ok; exact H1]. }
+    destruct (c =? cSTAR).
+    { eapply IH; [| apply okrev_nil | | exact H]; [lia|].
+      apply add_globstar_ok. apply consume_ok; [exact Hr | apply reduce_ok; exact Hs]. }
+    destruct (c =? cBSL) eqn:Eb.
+    { destruct r as [|c2 r2]; [discriminate|]. cbn [length] in Hl.
+      destruct (is_special c2) eqn:Es.
+      - eapply IH; [| | exact Hs | exact H]; [lia|].
+        apply N.eqb_eq in Eb. subst c. apply okrev_pair. exact Hr.
+      - eapply IH; [| | exact Hs | exact H]; [lia|].
+        apply okrev_plain; [|exact Hr]. unfold is_special in Es. unfold plainb.
+        repeat (apply orb_false_iff in Es; destruct Es as [Es ?]).
+        apply negb_true_iff. repeat (apply orb_false_iff; split); assumption. }
+    destruct ((c =? cLBR) || (c =? cRBR) || (c =? cOPEN) || (c =? cCLOSE)) eqn:Ebr; [discriminate|].
+    eapply IH; [| | exact Hs | exact H]; [lia|].
+    apply okrev_plain; [|exact Hr]. unfold plainb. rewrite Eb. cbn [orb]. rewrite Ebr. reflexivity.
+Qed.
+
+Lemma finish_ok : forall st, Forall comp_ok st -> Forall comp_ok (finish st).
+Proof.
+  intros st H. unfold finish.
+  assert (H1 : Forall comp_ok
+            (match st with
+             | (a, _) :: (b, _) :: (d, x) :: rest =>
+                 if (a =? tGLOB) && (b =? tSEP) && (d =? tSD) then (d, x) :: rest else st
+             | _ => st
+             end)).
+  { destruct st as [|[a xa] [|[b xb] [|[d xd] rest]]]; try exact H.
+    destruct ((a =? tGLOB) && (b =? tSEP) && (d =? tSD)); [inv_forall; solve_ok | exact H]. }
+  match goal with |- Forall comp_ok (match ?s with _ => _ end) => set (st1 := s) in * end.
+  destruct st1 as [|[a xa] [|[b xb] rest]].
+  - unfold mk. solve_ok.
+  - destruct (a =? tSD); unfold mk; solve_ok.
+  - destruct ((a =? tSEP) && (b =? tSD)); [inv_forall; unfold mk; solve_ok|].
+    destruct (a =? tSD); [inv_forall; unfold mk; solve_ok | unfold mk; solve_ok].
+Qed.
+
+Lemma flat_map_scan_ok : forall cs, Forall comp_ok cs -> scan_ok false (variant_string cs) = true.
+Proof.
+  induction 1 as [|c r Hc _ IH]; [reflexivity|].
+  unfold variant_string in *. cbn [flat_map]. rewrite (scan_ok_app _ _ _ Hc). exact IH.
+Qed.
+
+(* for EVERY input string: if parsePatternVariant succeeds, the variant string it builds has every bracket and brace escaped *)
+Theorem variants_keep_escapes : forall s cs, components s = Some cs -> scan_ok false (variant_string cs) = true.
+Proof.
+  intros s cs H. unfold components in H.
+  destruct (components_go (prepare (S (length s)) s) [] []) as [st|] eqn:E; [|discriminate].
+  inversion H; subst. apply flat_map_scan_ok. apply Forall_rev. apply finish_ok.
+  eapply (components_go_ok _ _ _ _ _ (le_n _) okrev_nil (Forall_nil _) E).
+Qed.
+
+Theorem rendered_keep_escapes : forall t rs, render_all t = Some rs -> Forall (fun v => scan_ok false v = true) rs.
+Proof.
+  intros t rs H. unfold render_all in H. revert rs H.
+  induction (expand t) as [|s r IH]; intros rs H; cbn [map all_some] in H.
+  - inversion H. constructor.
+  - unfold normalise in H at 1. destruct (components s) as [cs|] eqn:E; cbn [option_map] in H; [|discriminate].
+    destruct (all_some (map normalise r)) as [rs'|]; cbn [option_map] in H; [|discriminate].
+    inversion H; subst. constructor; [eapply variants_keep_escapes; eauto | apply IH; reflexivity].
+Qed.
+
 (* ------------------------------------------------------------------ Compare *)
 Lemma bytes_cmp_antisym : forall a b, bytes_cmp b a = CompOpp (bytes_cmp a b).
 Proof.
